@@ -1,6 +1,7 @@
 (* Repair.v — model of ArchiveFailSafeReader::convert_to_archive (mla/src/lib.rs:1357-1572)
    over a fail-safe top-layer stream (only `rd` is used), writing into the Writer model.
    Definitions only. *)
+From MLA Require Import Limit.
 From MLA Require Import Base Stream Blocks Writer.
 Open Scope N_scope.
 
@@ -10,6 +11,7 @@ Inductive fstatus :=
 | FErrInFile | FHashDiffers | FInternal | FEndOfData.
 
 Section Repair.
+  Context {LIM : Limit}.
   Variable FNMAX CACHE : N.
   Variables T_START T_CONTENT T_EOA T_EOF : N.
   Variable H : bytes -> bytes.
